@@ -17,6 +17,7 @@ META = {
 
 
 def run(s):
+    K.suite_workload(s)
     q = s.tier == 'quick'
     w = K.kind_weights(1, 1, 1.0, 0.04)
     n = 240 if q else 8000
